@@ -55,7 +55,9 @@ var c16Vars = []struct {
 	{"REQUEST_URI", false}, {"REQUEST_BODY", false}, {"REQUEST_METHOD", false}, {"RESPONSE_STATUS", false}, {"QUERY_STRING", false}, {"RESPONSE_HEADERS", true}, {"GEO", true}, {"ENV", true}}
 
 var c16Keys = []string{"a", "User-Agent", "x_y", "a.b", "a:b", "a,b", "k=v", "a/b", "0", "é", "A-B.c:d,e", "%{tx.a}", "a\"b", "[0]"}
-var c16RxKeys = []string{"^a", "a|b", "x\\/y", "^(a|b)$", "a,b", "a:b", "it's", "[a-c]+", "\\d+", ".", "a\"b", "^json\\.\\d+\\.x$"}
+var c16RxKeys = []string{"^a", "a|b", "x\\/y", "^(a|b)$", "a,b", "a:b", "it's", "[a-c]+", "\\d+", ".", "a\"b", "^json\\.\\d+\\.x$",
+	// upper-case letters: the same text means different compiled keys on case-sensitive (ARGS*) and case-insensitive collections
+	"^X-Tok", "[A-C]+x", "^Foo\\d", "^X-Tok"}
 var c16OpArgs = []string{"abc", "a b", "a,b:c", "it's", "say \"hi\"", "\"", "a\\b", "\\d+\\s", "^(?:a|b)$", "x\\\\y", "%{tx.a}", "'quoted'", "a|b", "é\xff", "`tick`", "#nocomment", "a  b", "\t tab", "@not-an-op", "!bang", "\\\\", "100%"}
 var c16ActVals = []string{"abc", "a b", "a, b: c", "it\\'s", "with:colon", "with,comma", "\\'", "a\\'b, c\\'d", "%{tx.a} x", "\"dq\"", "é", "a\\\\b", "semi;colon", "x=y"}
 
